@@ -22,6 +22,10 @@ type OStr struct {
 	Prefix   string // for addr: "table: ", "function: ", ...
 }
 
+// ONum is a line number that is only known to lie within a span of source lines (a statement spread over several
+// lines): it can be stored, passed and emitted; looking at its value makes the case Unspecified.
+type ONum struct{ Lo, Hi int }
+
 type Cell struct {
 	V   Value
 	Ver uint32
@@ -186,7 +190,7 @@ func TypeName(v Value) string {
 		return "nil"
 	case bool:
 		return "boolean"
-	case float64:
+	case float64, *ONum:
 		return "number"
 	case string, *OStr:
 		return "string"
